@@ -126,4 +126,19 @@ def check(run):
             run.violation('R3', 'remote-endpoint-internal-use', '%s calls remote_endpoint()' % top.norm, fn.loc(c),
                           'the library core uses the NAT-visible peer endpoint internally (%s): routing, MTU and matching must use the true endpoints, otherwise a NAT changes more than what is reported' % top.norm)
     run.ok('R3', 'remote-endpoint-internal-use', 'scan', '', 'core classes never call remote_endpoint() on their own behalf', nontrivial=False)
+    run.clause('the channel is complete before the SYN leaves: simulation::internal_connect writes ep / visible_ep / hops only BEFORE forward_packet (a NAT on the first hop rewrites visible_ep[0] synchronously inside that call; a later write would undo it)')
+    S_ = 'sim::simulation'
+    icn = fx.fn1(S_ + '::internal_connect')
+    run.touch(icn)
+    fwd_ = [c for c in icn.calls() if q.callee_name(c) == 'sim::forward_packet']
+    late = []
+    for a in q.field_accesses(icn, {CH + '::ep', CH + '::visible_ep', CH + '::hops'}):
+        if a.is_write and any(q.precedes(icn, f_, a.site) or (icn.cfg._reaches(icn.cfg.node_block(f_), icn.cfg.node_block(a.site)) and icn.cfg.node_block(f_) != icn.cfg.node_block(a.site)) for f_ in fwd_):
+            late.append(a)
+    run.check(bool(fwd_) and not late, 'R4', 'channel-complete-before-syn', S_ + '::internal_connect', icn.loc(late[0].node) if late else icn.loc(),
+              '%s is written after the SYN was handed to forward_packet(): the NAT on the connector\'s first hop has already rewritten the visible endpoint, and this write puts the private address back' % (late[0].field.split('::')[-1] if late else ''),
+              'all channel endpoint fields are written before forward_packet')
+    run.clause('reports come from the NAT-visible field: reader table of the true endpoints channel::ep (shared with C07)')
+    import p07
+    p07.ep_readers_rule(run)
     run.floor('R2', 4)
